@@ -909,8 +909,8 @@ def CheckBlock(block, fCheckPoW = True, fCheckMerkleRoot = True, cur_time=None):
     # it'll be caught by the "more than one coinbase" test.
     unique_txids = set()
     nSigOps = 0
-    for tx in block.vtx[1:]:
-        if tx.is_coinbase():
+    for i, tx in enumerate(block.vtx):
+        if i > 0 and tx.is_coinbase():
             raise CheckBlockError("CheckBlock() : more than one coinbase")
 
         CheckTransaction(tx)
